@@ -256,9 +256,12 @@ def complex_add(document, cls, tags):
         if a.xml_choice_group is None:
             sequence.append(member)
         else:
-            choice_tags[a.xml_choice_group].append(member)
-
-    sequence.extend(choice_tags.values())
+            # the choice tag takes the place of its first member, so that the
+            # sequence keeps the order the members are serialized in
+            choice_tag = choice_tags[a.xml_choice_group]
+            if len(choice_tag) == 0:
+                sequence.append(choice_tag)
+            choice_tag.append(member)
 
     if len(sequence) > 0:
         sequence_parent.append(sequence)
